@@ -9,6 +9,7 @@ import H263V.Lemmas.BaseRoundTrip
 import H263V.Lemmas.SorensonPicture
 import H263V.Lemmas.Total
 import H263V.Lemmas.PlusHeader
+import H263V.Lemmas.Reject
 namespace H263V.Thm.C06
 open H263V H263V.Spec.Vlc H263V.Spec.Syntax H263V.Spec.HeaderSpec
 
@@ -79,6 +80,42 @@ example : Lemmas.PlusRoundTrip.Valid true none
   · intro p hp; cases hp; decide
   · intro _ _; exact ⟨by decide, by decide, by decide, fun _ => by decide⟩
   · intro v hv; cases hv; decide
+
+/-- **Wrong fixed marker bits and reserved codes are rejected**, for EVERY value that violates them: PTYPE bits 1-2 other than "10"
+and the forbidden source format 000; UFEP codes 010..111; OPPTYPE bits 15-18 other than "1000"; MPPTYPE bits 7-9 other than "001";
+the CPFMT marker bit 0 and the forbidden PAR code 0000; UUI "00"; BCI "00"; BCI "1" (back-channel message: reported as
+unimplemented).  Each is an error of the section parser on every remaining input; an error in a section is the error of the whole
+header parse (`section_error_propagates`: the parser is a chain of binds and an error carries no cursor — nothing is consumed), and
+the reader is rolled back by the enclosing transaction (C14). -/
+theorem wrong_markers_rejected :
+    (∀ v, v < 256 → v &&& 0xC0 ≠ 0x80 → ∀ rest pos, Header.decodePtype ⟨natBits 8 v ++ rest, pos⟩ = .err .invalidPType) ∧
+    (∀ v, v < 256 → v &&& 0xC0 = 0x80 → v &&& 0x07 = 0 → ∀ rest pos,
+      Header.decodePtype ⟨natBits 8 v ++ rest, pos⟩ = .err .invalidPType) ∧
+    (∀ d po c, 2 ≤ c → c < 8 → ∀ rest pos, Header.decodePlusptype d po ⟨natBits 3 c ++ rest, pos⟩ = .err .invalidPlusPType) ∧
+    (∀ d po opp, opp < 2 ^ 18 → opp &&& 0xF ≠ 0x8 → ∀ rest pos,
+      Header.decodePlusptype d po ⟨natBits 3 1 ++ (natBits 18 opp ++ rest), pos⟩ = .err .invalidPlusPType) ∧
+    (∀ d po mpp, mpp < 2 ^ 9 → mpp &&& 0x7 ≠ 0x1 → ∀ rest pos,
+      Header.decodePlusptype d po ⟨natBits 3 0 ++ (natBits 9 mpp ++ rest), pos⟩ = .err .invalidPlusPType) ∧
+    (∀ v, v < 2 ^ 23 → v &&& 0x200 = 0 → ∀ rest pos, Header.decodeCpfmt ⟨natBits 23 v ++ rest, pos⟩ = .err .formatInvalid) ∧
+    (∀ v, v < 2 ^ 23 → v &&& 0x200 ≠ 0 → (v &&& 0x780000) >>> 19 = 0 → ∀ rest pos,
+      Header.decodeCpfmt ⟨natBits 23 v ++ rest, pos⟩ = .err .formatInvalid) ∧
+    (∀ rest pos, Header.decodeUui ⟨false :: false :: rest, pos⟩ = .err .invalidBitstream) ∧
+    (∀ rest pos, Header.decodeBcm ⟨false :: false :: rest, pos⟩ = .err .invalidBitstream) ∧
+    (∀ rest pos, Header.decodeBcm ⟨true :: rest, pos⟩ = .err .unimplemented) :=
+  ⟨fun v hv hm r p => Lemmas.Reject.ptype_markers v hv hm r p,
+   fun v hv hm hf r p => Lemmas.Reject.ptype_format_zero v hv hm hf r p,
+   fun d po c h2 h8 r p => Lemmas.Reject.ufep_reserved d po c h2 h8 r p,
+   fun d po opp ho hm r p => Lemmas.Reject.opptype_tail d po opp ho hm r p,
+   fun d po mpp h9 hm r p => Lemmas.Reject.mpptype_tail d po mpp h9 hm r p,
+   fun v hv hm r p => Lemmas.Reject.cpfmt_marker v hv hm r p,
+   fun v hv hm hp r p => Lemmas.Reject.cpfmt_par_zero v hv hm hp r p,
+   fun r p => Lemmas.Reject.uui_zero_zero r p,
+   fun r p => Lemmas.Reject.bci_zero_zero r p,
+   fun r p => Lemmas.Reject.bci_one r p⟩
+
+theorem section_error_propagates {α β : Type} (p : P α) (f : α → P β) (c : Cur) (e : Err) (h : p c = .err e) :
+    (p >>= f) c = .err e :=
+  Lemmas.Reject.bind_err p f c e h
 
 /-- Up to seven zero stuffing bits in front of the start code, within the alignment window of the current position, are
 skipped: the header parses exactly as it does at the start code (any header flavour). -/
